@@ -23,6 +23,7 @@ class C07(Check):
     harness_src = "harness/h_deps.c"
     harness_cflags = ("-DBUILDING_PARSEC",)
     link_parsec = True
+    race = True
     level_text = ("Theorems over an atomic-step model of parsec_update_deps_with_counter and _with_mask: for every goal, every set "
                   "of releases obeying the protocol and EVERY schedule (arbitrary list of thread ids, any number of threads), at most "
                   "one release returns ready, one does exactly when all have performed their read-modify-write, and it is the last. "
@@ -123,6 +124,19 @@ class C07(Check):
                         rel = rel + [rel[0]]
                 out.append("mask 1 %d | %s | %s | %s | %d" % (goal, self.flows_txt(fl), " ".join(map(str, rel)),
                                                                " ".join(map(str, self.sched(r, len(rel), 2))), exp))
+        return out
+
+    def race_cases(self, cases):
+        # protocol-respecting cases with at least two releases; plain reads of the dependency word are now
+        # scheduling points too, so schedules are lengthened
+        out = []
+        r = self.rng.fork()
+        for c in cases:
+            f = [x.strip() for x in c.split("|")]
+            nt = int(f[2]) if f[0].startswith("ctr") else len(f[2].split())
+            if int(f[4]) == 1 and nt >= 2:
+                f[3] = " ".join(str(r.below(nt)) for _ in range(r.range(nt, 6 * nt)))
+                out.append(" | ".join(f))
         return out
 
     def nontrivial_key(self, case):
